@@ -262,8 +262,34 @@ def run(ctx):
                                      "non-trivial = at least one fiber slept in the barrier (returned 0)"})
         if ctx.failures and not ctx.violations:
             search(ctx, exe)
+    if exe and ctx.tier == "thorough":
+        patience(ctx, exe)
     core.init_contract(ctx, ["fiber_barrier"])  # rt/h_init.c: real init on dirty memory
     core.finish(ctx, extra_assumptions=ASSUME)
+
+
+def patience(ctx, exe):
+    """the serial fiber's wait for participants that have arrived (fetch_add) but not yet enqueued - the general
+    (count > 1) path of fiber_manager_wake_from_mpsc_queue - must last as long as such a participant is stalled.
+    Thorough tier only: count 3, fiber 0 sleeps in the barrier, fiber 1 is stopped right after its fetch_add for 5 million
+    steps of the serial fiber 2 (1.25 million iterations of the loop), then everybody runs on; judged on the raw trace
+    (all three must return), not compared with the model."""
+    n = 5000000
+    c = core.fmt_case([4000, 3], progs_of([1, 1, 1]), [0] * 40 + [1] * 2 + [2] * n)
+    line = core.run_sharded([exe], [c], timeout=1500)[0]
+    w = (line or "").split()
+    tail = [tuple(int(x) for x in w[i:i + 4]) for i in range(max(0, len(w) - 400), len(w) - 3, 4)] if len(w) % 4 == 0 else []
+    bad = None
+    if len(w) < 4 * n // 2:
+        bad = "the serial fiber did not keep waiting for the stalled participant (trace has %d events for %d scheduled steps)" % (len(w) // 4, n)
+    elif any(k == 919 and loc == 0 and val == 7 for (_t, loc, k, val) in tail) or \
+            not any(t == 1 and loc == 1 and k == 909 for (t, loc, k, _v) in tail):
+        bad = "after a stall of %d serial-fiber steps the stalled participant never returned from the barrier (trace ends %s)" % (n, tail[-3:])
+    if bad:
+        core.report_violation(ctx, "barrier-patience", "count 3, one wait each; schedule: 40 x 0, 1 1, then %d x 2 (replay re-runs it)" % n,
+                              "patience: " + bad, " ".join(w[-40:]))
+    ctx.coverage["patience_stall_steps"] = n
+    ctx.oblige("patience(serial fiber waits out a participant stalled for %d steps)" % n, bad is None, bad or "")
 
 
 def search(ctx, exe):
@@ -288,6 +314,11 @@ def replay(ctx, payload):
     if payload.get("harness") == "h_init":
         return core.replay_init(ctx, payload)
     exe = build(ctx)
+    if exe and payload.get("harness") == "barrier-patience":
+        nv = len(ctx.violations)
+        patience(ctx, exe)
+        print("patience: %s" % ("VIOLATED again" if len(ctx.violations) > nv else "ok"))
+        return 1 if len(ctx.violations) > nv else 0
     c = payload.get("case")
     if not exe or not c:
         print("nothing to replay (no concrete case in this file)")
